@@ -11,7 +11,7 @@ COMMON_ASSUMPTIONS = [
     "TLC, the CommunityModules Json/IOUtils modules and the harness's image builder are correct",
 ]
 
-MIX = "small:60,positions:40,gc-heavy:12,big:6,many-queues:6,names:6,wrap:6,batch:12,empties:10"
+MIX = "small:60,positions:40,gc-heavy:12,big:6,many-queues:6,names:6,wrap:6,batch:12,empties:10,edge63:10"
 MC_QM = dict(name="MC_QueueMap", module="QueueMapMC.tla", cfg="MC_QueueMap.cfg", cfg_thorough="MC_QueueMap_thorough.cfg",
              expect_actions=["QNext"])
 WAL_STEPS = ["CallBegin", "StepEntry", "StepWrite", "StepFlush", "StepFsync", "StepDirSync", "StepCreate", "StepSetLen",
@@ -64,7 +64,7 @@ RECIPES = {
         level="model_checking",
         monitors={"C04"},
         mc=[MC_QM, MC_CLEAN, MC_CRASH_SIM],
-        runs=[dict(cmd="run", gen="idle:60,gc-heavy:20,positions:30,aim-gc:80,aim-stale:20", policy="always_flush"),
+        runs=[dict(cmd="run", gen="idle:60,gc-heavy:20,positions:30,aim-gc:80,aim-stale:20,edge63:20", policy="always_flush"),
               dict(cmd="run", gen="idle:16,gc-heavy:6,aim-gc:16,aim-stale:4", policy="always_flush",
                    opts={"crash": "process", "tears": "aimed", "cont": True, "max-points": "400"})],
         rule="every append result above the largest position ever assigned in the incarnation; next above it in every "
@@ -75,7 +75,7 @@ RECIPES = {
         level="model_checking",
         monitors={"C13"},
         mc=[MC_QM, MC_NOOP],
-        runs=[dict(cmd="run", gen="rejects:120,small:40,positions:40,aim-noop:60", policy="always_flush"),
+        runs=[dict(cmd="run", gen="rejects:120,small:40,positions:40,aim-noop:60,edge63:20", policy="always_flush"),
               dict(cmd="run", gen="rejects:30,aim-noop:10,positions:10", policy="do_nothing,always_fsync,on_delay_long_flush")],
         rule="every rejected / no-op call: no write/create/set_len/unlink event, wal_bytes_written = 0, state, cursor "
              "and file list unchanged; restart-equality through the C01/C05 monitors of the same run; "
